@@ -1,4 +1,5 @@
 import Invoke.Lemmas.RunnerTimer
+import Invoke.Lemmas.RunnerPrompt
 /-! # C14 — a timed-out command is killed and reported promptly; a timely one is left alone
 
 Over EVERY schedule of the runner transition system (timer expiry, kill, process exit, reads,
@@ -101,6 +102,39 @@ theorem timely_command_normal (hi ht w p e : Bool) (o er : List Chunk) (ins : Li
     · exact Or.inl h
     · obtain ⟨rc, hrc⟩ := h; exact absurd hrc (hnt rc)
     · exact Or.inr h
+
+/-- **timeout_reported_promptly** ("promptly" as a bound on fair rounds, composing C08's termination
+    argument with the bookkeeping invariant): from ANY reachable state in which the kill has been
+    issued, if no grandchild holds the pipes, every sequence of more than `mu` fair rounds of thread
+    steps - in any order inside each round, with or without further timer steps - ends with `run`
+    over, every worker finished, exactly one kill, and the timed-out failure raised (whatever `warn`
+    and the exit status are) unless a worker thread died.  `mu` counts the bytes still in the pipes,
+    the input items still to forward and main's remaining program points - NOT how much longer the
+    command would have run. -/
+theorem timeout_reported_promptly (hi ht w p e : Bool) (o er : List Chunk) (ins : List InItem) (sf : Bool)
+    (n : Nat) (hn : 0 < n) (evs : List Ev) (rs : List (List Actor))
+    (hk : (run (S.init hi ht w p e o er ins false sf n) evs).killIssued = true)
+    (hc : ∀ r ∈ rs, Covers r) (hl : mu (run (S.init hi ht w p e o er ins false sf n) evs) < rs.length) :
+    Terminal (rs.foldl runRound (run (S.init hi ht w p e o er ins false sf n) evs)) ∧
+    ((rs.foldl runRound (run (S.init hi ht w p e o er ins false sf n) evs)).outcome = .threadExc ∨
+     ∃ rc, (rs.foldl runRound (run (S.init hi ht w p e o er ins false sf n) evs)).outcome = .timedOut rc) ∧
+    (rs.foldl runRound (run (S.init hi ht w p e o er ins false sf n) evs)).kills = 1 := by
+  have hx := killed_exited_run _ evs (by simp [S.init]) hk
+  have hho : (run (S.init hi ht w p e o er ins false sf n) evs).holdOpen = false := by
+    have := opts_run (S.init hi ht w p e o er ins false sf n) evs
+    simp only [S.opts, Prod.mk.injEq] at this
+    rw [this.2.2.2.2.2.1]; simp [S.init]
+  obtain ⟨c1, c2⟩ := closedInv_run _ evs (closedInv_init hi ht w p e o er ins false sf n) hx hho
+  have hterm := reachable_terminates' hi ht w p e o er ins false sf n hn evs rs hx c1 c2 hc hl
+  have hrun : rs.foldl runRound (run (S.init hi ht w p e o er ins false sf n) evs) =
+      run (S.init hi ht w p e o er ins false sf n) (evs ++ rs.flatten.map .act) := by
+    rw [rounds_eq_run]; simp [run, List.foldl_append]
+  rw [hrun] at hterm ⊢
+  have hk' : (run (S.init hi ht w p e o er ins false sf n) (evs ++ rs.flatten.map .act)).killIssued = true := by
+    have := killIssued_mono_run _ (rs.flatten.map .act) hk
+    simpa [run, List.foldl_append] using this
+  exact ⟨hterm, (timeout_kills_and_raises hi ht w p e o er ins false sf n _ hk' hterm.1).1,
+    (timeout_kills_and_raises hi ht w p e o er ins false sf n _ hk' hterm.1).2.1⟩
 
 /-- without a timeout nothing is ever killed and no timed-out failure is ever raised -/
 theorem no_timeout_no_kill (hi w p e : Bool) (o er : List Chunk) (ins : List InItem) (ho sf : Bool)
